@@ -16,6 +16,7 @@
 
 pub mod build;
 pub mod decoder;
+pub mod enc;
 pub mod model;
 
 use build::*;
@@ -125,6 +126,32 @@ fn rand_len(rng: &mut Rng) -> usize {
         7 => 13 + rng.usize(50),
         8 => 2 * rng.usize(40) + 1,
         _ => 64 + rng.usize(700),
+    }
+}
+
+/// ASan slice only: table sizes from empty to several hundred KiB (multi meta-block streams, ring-buffer wraps).
+fn asan_len(rng: &mut Rng) -> usize {
+    match rng.below(12) {
+        0 => 0,
+        1 => 1,
+        2..=5 => 1 + rng.usize(60),
+        6..=8 => 64 + rng.usize(2000),
+        9 | 10 => 2000 + rng.usize(30_000),
+        _ => 70_000 + rng.usize(400_000),
+    }
+}
+
+/// ASan slice only: a max_uncompressed_length far above the real length (<= 16 MiB).
+fn asan_big_max(rng: &mut Rng, len: usize) -> u32 {
+    (*rng.pick(&[len + 1, len + 4096, 1 << 16, 1 << 20, 16 << 20])).max(len).min(16 << 20) as u32
+}
+
+/// Opaque payload bytes: random, or compressible in the ASan slice.
+fn payload_bytes(rng: &mut Rng, len: usize) -> Vec<u8> {
+    if enc::compress_mode() {
+        enc::structured_bytes(rng, len, None)
+    } else {
+        rng.bytes(len)
     }
 }
 
@@ -369,7 +396,7 @@ fn gen_gk_spec(rng: &mut Rng, s: &FontSpec, earlier: &[GkSpec], agree: bool, sma
                     if small {
                         l %= 9;
                     }
-                    rng.bytes(l)
+                    payload_bytes(rng, l)
                 }
             };
             per.push(d);
@@ -381,9 +408,12 @@ fn gen_gk_spec(rng: &mut Rng, s: &FontSpec, earlier: &[GkSpec], agree: bool, sma
 
 fn encode_gk(spec: &GkSpec, compat: &[u8; 16], real: bool, rng: &mut Rng) -> Vec<u8> {
     let payload = gk_payload(spec);
-    let max_len = payload.len() as u32 + if rng.bool() { 0 } else { rng.below(100) as u32 };
+    let mut max_len = payload.len() as u32 + if rng.bool() { 0 } else { rng.below(100) as u32 };
+    if enc::compress_mode() && rng.chance(1, 12) {
+        max_len = asan_big_max(rng, payload.len());
+    }
     if real {
-        gk_patch(b"ifgk", spec.wide, compat, max_len, &brotli_stored(&payload))
+        gk_patch(b"ifgk", spec.wide, compat, max_len, &brotli_stream(&payload, None))
     } else {
         gk_patch(b"ifgk", spec.wide, compat, max_len, &payload)
     }
@@ -446,8 +476,12 @@ fn gen_tk(
         let (stream, max_len) = match &plain {
             None => (vec![], 0u32),
             Some(p) => {
-                let st = stream.unwrap_or_else(|| if real { brotli_stored(p) } else { p.clone() });
-                (st, p.len() as u32 + if rng.bool() { 0 } else { rng.below(50) as u32 })
+                let st = stream.unwrap_or_else(|| if real { brotli_stream(p, None) } else { p.clone() });
+                let mut ml = p.len() as u32 + if rng.bool() { 0 } else { rng.below(50) as u32 };
+                if enc::compress_mode() && rng.chance(1, 12) {
+                    ml = asan_big_max(rng, p.len());
+                }
+                (st, ml)
             }
         };
         entries.push(TkEntry { tag, flags, max_len, stream });
@@ -459,10 +493,24 @@ fn gen_tk(
         match rng.below(5) {
             0 => {}
             1 => push(rng, real, &mut entries, &mut plains, tag, 2, None, None), // drop
+            2 if enc::compress_mode() => {
+                let l = asan_len(rng);
+                let b = payload_bytes(rng, l);
+                push(rng, real, &mut entries, &mut plains, tag, 1, Some(b), None) // replace, compressed stream
+            }
             2 => {
                 let l = rand_len(rng);
                 let b = rng.bytes(l);
                 push(rng, real, &mut entries, &mut plains, tag, 1, Some(b), None) // replace
+            }
+            _ if enc::compress_mode() && !(tag == *b"dict" && rng.bool()) => {
+                // diff against base: the target shares content with the base table and the stream is
+                // compressed against it (raw shared dictionary), so decoding really reads the dictionary
+                let base = fs.extra.iter().find(|e| e.0 == tag).map(|e| e.1.clone()).unwrap_or_default();
+                let l = asan_len(rng);
+                let b = enc::structured_bytes(rng, l, Some(&base));
+                let st = brotli_stream(&b, Some(&base));
+                push(rng, real, &mut entries, &mut plains, tag, 0, Some(b), Some(st));
             }
             _ => {
                 // diff against base
@@ -514,8 +562,19 @@ pub fn gen_scenario(seed: u64, index: usize, tier_thorough: bool) -> Scenario {
     let flavour = FLAVOURS[fi];
     let mut fs = gen_font_spec(rng, flavour);
     let real = rng.chance(1, 4);
+    // the ASan slice sends every stream through the real C decoder
+    let real = real || enc::compress_mode();
     let agree = rng.chance(3, 4);
     fs.with_cmap = rng.bool();
+    if enc::compress_mode() {
+        // base tables worth using as shared dictionaries
+        for e in fs.extra.iter_mut() {
+            if rng.chance(2, 3) {
+                let l = asan_len(rng);
+                e.1 = enc::structured_bytes(rng, l, None);
+            }
+        }
+    }
     if real {
         fs.extra.push((*b"dict", DICT_BASE.to_vec()));
     }
@@ -1391,7 +1450,7 @@ fn classify_order_diff(a: &Tables, b: &Tables) -> String {
 fn mutate_gk(rng: &mut Rng, sc: &Scenario, spec: &GkSpec, compat: &[u8; 16], variant: usize) -> Option<(&'static str, Vec<u8>)> {
     let enc = |payload: &[u8], max: u32, fmt: &Tag4, compat: &[u8; 16], wide: bool| {
         if sc.real {
-            gk_patch(fmt, wide, compat, max, &brotli_stored(payload))
+            gk_patch(fmt, wide, compat, max, &brotli_stream(payload, None))
         } else {
             gk_patch(fmt, wide, compat, max, payload)
         }
@@ -1509,7 +1568,7 @@ fn mutate_gk(rng: &mut Rng, sc: &Scenario, spec: &GkSpec, compat: &[u8; 16], var
             if !sc.real {
                 return None;
             }
-            let mut st = brotli_stored(&payload);
+            let mut st = brotli_stream(&payload, None);
             let name = if rng.bool() {
                 st.push(0);
                 "gk:brotli-excess-input"
@@ -1565,7 +1624,7 @@ fn mutate_tk(rng: &mut Rng, sc: &Scenario, entries: &[TkEntry], compat: &[u8; 16
             let payload = rng.bytes(9);
             es.insert(
                 rng.usize(es.len() + 1),
-                TkEntry { tag: *b"Miss", flags: 0, max_len: 9, stream: if sc.real { brotli_stored(&payload) } else { payload } },
+                TkEntry { tag: *b"Miss", flags: 0, max_len: 9, stream: if sc.real { brotli_stream(&payload, None) } else { payload } },
             );
             ("tk:diff-against-missing-table", tk_patch(b"iftk", compat, &es))
         }
@@ -1792,9 +1851,458 @@ fn run_stale_info(ctx: &mut Ctx, sc: &Scenario, rng: &mut Rng) {
     }
 }
 
+// ---------------------------------------------------------------- AddressSanitizer slice (profile "asan")
+//
+// Built by /verif/tools/stage_asan.sh with ASan instrumentation of the Rust code AND of the C brotli
+// library (CC=clang CFLAGS=-fsanitize=address). Everything below reaches the REAL C decoder
+// (`BuiltInBrotliDecoder` -> c_brotli.rs -> BrotliDecoderDecompressStream): a memory error in the C
+// code or at the Rust<->C boundary (output buffer size, dictionary pointer / length, input cursor)
+// ends the process with an ASan report (exit 77), which the driver turns into a violation. The
+// functional oracles of the normal profiles stay on.
+
+/// One compressed stream of a scenario with what it should decode to.
+struct StreamRef {
+    what: String,
+    stream: Vec<u8>,
+    dict: Option<Vec<u8>>,
+    plain: Vec<u8>,
+    max_len: u32,
+}
+
+fn streams_of(sc: &Scenario) -> Vec<StreamRef> {
+    let base = tables_of(&sc.font);
+    let mut v = vec![];
+    for (u, p) in &sc.patches {
+        match p {
+            PatchModel::Gk { spec, bytes } => {
+                if bytes.len() >= GK_HEADER_LEN {
+                    v.push(StreamRef {
+                        what: format!("{u}:glyph-keyed"),
+                        stream: bytes[GK_HEADER_LEN..].to_vec(),
+                        dict: None,
+                        plain: gk_payload(spec),
+                        max_len: u32::from_be_bytes(bytes[GK_HEADER_LEN - 4..GK_HEADER_LEN].try_into().unwrap()),
+                    });
+                }
+            }
+            PatchModel::Tk { entries, plains, .. } => {
+                for (e, pl) in entries.iter().zip(plains) {
+                    let Some(pl) = pl else { continue };
+                    if e.flags & 2 != 0 {
+                        continue;
+                    }
+                    let dict = if e.flags & 1 == 0 { base.get(&e.tag).cloned() } else { None };
+                    v.push(StreamRef {
+                        what: format!("{u}:table-keyed:{}:{}", tag_str(&e.tag), if e.flags & 1 == 0 { "diff" } else { "replace" }),
+                        stream: e.stream.clone(),
+                        dict,
+                        plain: pl.clone(),
+                        max_len: e.max_len,
+                    });
+                }
+            }
+        }
+    }
+    v
+}
+
+fn corrupt_stream(rng: &mut Rng, st: &mut Vec<u8>) -> &'static str {
+    match rng.below(6) {
+        0 | 1 if !st.is_empty() => {
+            for _ in 0..1 + rng.usize(3) {
+                let p = rng.usize(st.len());
+                st[p] ^= 1 << rng.usize(8);
+            }
+            "bitflip"
+        }
+        2 if !st.is_empty() => {
+            let p = rng.usize(st.len());
+            st.truncate(p);
+            "truncate"
+        }
+        3 if !st.is_empty() => {
+            let p = rng.usize(st.len());
+            let k = (1 + rng.usize(8)).min(st.len() - p);
+            let fill = rng.bytes(k);
+            let ff = rng.bool();
+            for (i, b) in st[p..p + k].iter_mut().enumerate() {
+                *b = if ff { 0xff } else { fill[i] };
+            }
+            "overwrite"
+        }
+        4 if st.len() > 4 => {
+            // repeat a chunk of the stream in place
+            let a = rng.usize(st.len() - 2);
+            let k = 1 + rng.usize((st.len() - a).min(32));
+            let chunk = st[a..a + k].to_vec();
+            let at = rng.usize(st.len());
+            for (i, b) in chunk.into_iter().enumerate() {
+                st.insert(at + i, b);
+            }
+            "duplicate-chunk"
+        }
+        _ => {
+            let k = 1 + rng.usize(8);
+            let extra = rng.bytes(k);
+            st.extend(extra);
+            "append"
+        }
+    }
+}
+
+/// Direct calls of the public decoder: size grid, truncations, corruptions, dictionary variants.
+fn run_decoder_direct(ctx: &mut Ctx, sc: &Scenario, rng: &mut Rng) {
+    use shared_brotli_patch_decoder::{BuiltInBrotliDecoder, SharedBrotliDecoder};
+    let mut streams = streams_of(sc);
+    rng.shuffle(&mut streams);
+    streams.truncate(5);
+    let cj = |s: &StreamRef, what: &str, max: usize| json!({"scenario_index": sc.index, "stream": s.what, "stream_len": s.stream.len(), "plain_len": s.plain.len(), "dict_len": s.dict.as_ref().map(|d| d.len()), "case": what, "max_uncompressed_length": max});
+    let dec = |ctx: &mut Ctx, s: &StreamRef, what: &str, stream: &[u8], dict: Option<&[u8]>, max: usize| -> Option<Result<Vec<u8>, String>> {
+        ctx.eval();
+        ctx.count("direct_decodes", 1);
+        let r = ctx.run_case(&|| format!("scenario {} direct {} {what} max={max}", sc.index, s.what), Some(stream), &|| BuiltInBrotliDecoder.decode(stream, dict, max));
+        match r {
+            Err(p) => {
+                ctx.judge_panic(&p, "BuiltInBrotliDecoder::decode", cj(s, what, max), Some(stream));
+                None
+            }
+            Ok(Ok(v)) => {
+                if v.len() > max {
+                    ctx.violation(&format!("decoder:output-longer-than-max:{what}"), cj(s, what, max), Some(stream));
+                }
+                ctx.count(&format!("direct:{what}:ok"), 1);
+                Some(Ok(v))
+            }
+            Ok(Err(e)) => {
+                ctx.count(&format!("direct:{what}:err"), 1);
+                ctx.label("direct_errors", &format!("{what} -> {e:?}"));
+                Some(Err(format!("{e:?}")))
+            }
+        }
+    };
+    for s in &streams {
+        let len = s.plain.len();
+        let dict = s.dict.as_deref();
+        let compressed = s.stream.len() < len;
+        if compressed {
+            ctx.count("direct_streams_compressed", 1);
+        }
+        if dict.map(|d| !d.is_empty()).unwrap_or(false) {
+            ctx.count("direct_streams_with_dictionary", 1);
+        }
+        // adequate sizes: the plain text, exactly
+        let mut sizes = vec![len, len + 1, len + 1 + rng.usize(200)];
+        if rng.chance(1, 6) {
+            sizes.push(asan_big_max(rng, len) as usize);
+        }
+        let mut all_ok = true;
+        for max in sizes {
+            match dec(ctx, s, "adequate-size", &s.stream, dict, max) {
+                Some(Ok(v)) if v == s.plain => {}
+                Some(other) => {
+                    all_ok = false;
+                    ctx.violation(
+                        "decoder:valid-stream-not-decoded-to-its-plain-text",
+                        json!({"case": cj(s, "adequate-size", max), "got": other.map(|v| format!("Ok({} bytes, digest {:016x})", v.len(), vf_core::fnv64(&v)))}),
+                        Some(&s.stream),
+                    );
+                }
+                None => all_ok = false,
+            }
+        }
+        if all_ok {
+            let mut d = Digest::new();
+            d.u64(sc.digest);
+            d.str(&s.what);
+            d.str("direct");
+            ctx.nontrivial(d.finish());
+        }
+        // too small: must fail, and must not write past the buffer
+        if len > 0 {
+            let mut smalls = vec![0usize, len - 1, len / 2];
+            smalls.push(rng.usize(len));
+            smalls.dedup();
+            for max in smalls {
+                if let Some(Ok(v)) = dec(ctx, s, "size-too-small", &s.stream, dict, max) {
+                    ctx.violation("decoder:size-too-small-accepted", json!({"case": cj(s, "size-too-small", max), "got_len": v.len()}), Some(&s.stream));
+                }
+            }
+        }
+        // truncations
+        let n = s.stream.len();
+        let cuts: Vec<usize> = if n <= 40 { (0..n).collect() } else { (0..20).map(|_| rng.usize(n)).chain(n - 6..n).collect() };
+        for c in cuts {
+            if let Some(Ok(_)) = dec(ctx, s, "truncated", &s.stream[..c], dict, s.max_len as usize) {
+                ctx.count("direct_truncated_stream_decoded", 1);
+            }
+        }
+        // corruptions, with the right / no / a wrong dictionary
+        for k in 0..16 {
+            let mut st = s.stream.clone();
+            let kind = corrupt_stream(rng, &mut st);
+            let wrong: Option<Vec<u8>> = match (k % 4, dict) {
+                (1, _) => None,
+                (2, Some(d)) if d.len() > 1 => Some(d[..rng.usize(d.len())].to_vec()),
+                (3, _) => {
+                    let k = rng.usize(300);
+                    Some(rng.bytes(k))
+                }
+                (_, d) => d.map(|d| d.to_vec()),
+            };
+            let max = if rng.chance(1, 4) { len / 2 } else { s.max_len as usize };
+            let _ = dec(ctx, s, &format!("corrupt-{kind}"), &st, wrong.as_deref(), max.min(16 << 20));
+        }
+        // the pristine stream with another dictionary
+        if let Some(d) = dict {
+            if !d.is_empty() {
+                let _ = dec(ctx, s, "dictionary-missing", &s.stream, None, s.max_len as usize);
+                let _ = dec(ctx, s, "dictionary-shortened", &s.stream, Some(&d[..d.len() / 2]), s.max_len as usize);
+                let mut d2 = d.to_vec();
+                let k = 1 + rng.usize(40);
+                d2.extend(rng.bytes(k));
+                let _ = dec(ctx, s, "dictionary-extended", &s.stream, Some(&d2), s.max_len as usize);
+            }
+        }
+    }
+}
+
+/// Corrupted / re-sized compressed streams through the whole client (group API), fault-free and
+/// with a decoder fault injected: Err must leave the bookkeeping untouched; a larger advertised
+/// length must not change the result; a smaller one must be rejected.
+fn run_stream_fuzz(ctx: &mut Ctx, sc: &Scenario, rng: &mut Rng) {
+    let st0 = initial_state(sc, rng);
+    let Ok(fr) = FontRef::new(&sc.font) else { return };
+    let Ok(group) = PatchGroup::select_next_patches(fr, &SubsetDefinition::all()) else { return };
+    let uris: Vec<String> = group.uris().map(|s| s.to_string()).collect();
+    drop(group);
+    if uris.is_empty() {
+        return;
+    }
+    let Some(first) = st0.info(&uris[0]) else { return };
+    let victims: Vec<String> = if first.kind.is_tk() {
+        vec![uris[0].clone()]
+    } else {
+        uris.iter().filter(|u| st0.info(u).map(|i| i.kind == Kind::Gk).unwrap_or(false)).cloned().collect()
+    };
+    if victims.is_empty() {
+        return;
+    }
+    let all_streams = streams_of(sc);
+    // the unmodified application, for comparison
+    let dec0 = FaultyDecoder::new(true, None);
+    let mut map0 = clone_map(&st0.map);
+    ctx.eval();
+    let pristine = match apply_group(ctx, &sc.font, &mut map0, &dec0, &format!("scenario {} asan pristine", sc.index)) {
+        Some(Ok(r)) => r,
+        Some(Err(p)) => {
+            ctx.judge_panic(&p, "apply_next_patches_with_decoder (asan pristine)", case_json(sc, json!({})), Some(&sc.font));
+            return;
+        }
+        None => return,
+    };
+    let n_calls = dec0.calls.get();
+    ctx.count("asan_pristine_decoder_calls", n_calls as u64);
+    for v in 0..10 {
+        let victim = rng.pick(&victims).clone();
+        let Some(compat) = compat_of(sc, &victim) else { continue };
+        let kind = rng.below(9);
+        // (mutated patch, name, plain length of the touched stream, new max_len)
+        let m: Option<(Vec<u8>, String, usize, u32)> = match &sc.patches[&victim] {
+            PatchModel::Gk { spec, bytes } => {
+                let plain_len = gk_payload(spec).len();
+                let mut stream = bytes[GK_HEADER_LEN..].to_vec();
+                let mut max = u32::from_be_bytes(bytes[GK_HEADER_LEN - 4..GK_HEADER_LEN].try_into().unwrap());
+                let name = mutate_stream(rng, kind, &mut stream, &mut max, plain_len, &all_streams, None);
+                name.map(|n| (gk_patch(b"ifgk", spec.wide, compat, max, &stream), format!("gk:{n}"), plain_len, max))
+            }
+            PatchModel::Tk { entries, plains, .. } => {
+                let cand: Vec<usize> = (0..entries.len()).filter(|i| entries[*i].flags & 2 == 0 && plains[*i].is_some() && !entries[..*i].iter().any(|p| p.tag == entries[*i].tag)).collect();
+                if cand.is_empty() {
+                    None
+                } else {
+                    let i = *rng.pick(&cand);
+                    let mut es = entries.clone();
+                    let plain_len = plains[i].as_ref().map(|p| p.len()).unwrap_or(0);
+                    let (mut stream, mut max, mut flags) = (es[i].stream.clone(), es[i].max_len, es[i].flags);
+                    let name = mutate_stream(rng, kind, &mut stream, &mut max, plain_len, &all_streams, Some(&mut flags));
+                    es[i].stream = stream;
+                    es[i].max_len = max;
+                    es[i].flags = flags;
+                    name.map(|n| (tk_patch(b"iftk", compat, &es), format!("tk:{n}"), plain_len, max))
+                }
+            }
+        };
+        let Some((bad, name, plain_len, new_max)) = m else { continue };
+        let fault = if rng.chance(1, 3) && n_calls > 0 {
+            let all: Vec<Fault> = ERROR_FAULTS.iter().chain(OUTPUT_FAULTS.iter()).copied().collect();
+            Some((rng.usize(n_calls), *rng.pick(&all)))
+        } else {
+            None
+        };
+        let mut map = clone_map(&st0.map);
+        map.insert(victim.clone(), UriStatus::Pending(bad.clone()));
+        let snapshot = clone_map(&map);
+        let dec = FaultyDecoder::new(true, fault);
+        ctx.eval();
+        let Some(r) = apply_group(ctx, &sc.font, &mut map, &dec, &format!("scenario {} asan {name}", sc.index)) else { continue };
+        let cj = json!({"variant": name, "victim": victim, "group": uris, "bad_patch_len": bad.len(), "plain_len": plain_len, "max_uncompressed_length": new_max,
+                        "injected_fault": fault.map(|(k, f)| format!("{}@{k}", f.name()))});
+        let r = match r {
+            Ok(r) => r,
+            Err(p) => {
+                ctx.judge_panic(&p, &format!("apply_next_patches_with_decoder (asan {name})"), case_json(sc, cj), Some(&bad));
+                continue;
+            }
+        };
+        ctx.count(&format!("asan_fuzz:{name}:{}", if r.is_ok() { "ok" } else { "err" }), 1);
+        if fault.is_some() {
+            ctx.count("asan_fuzz_with_injected_fault", 1);
+        }
+        if dec.calls.get() > 0 {
+            let mut d = Digest::new();
+            d.u64(sc.digest);
+            d.u64(v);
+            d.str(&name);
+            ctx.nontrivial(d.finish());
+        }
+        match &r {
+            Err(e) => {
+                ctx.label("asan_fuzz_errors", &format!("{name} -> {}", format!("{e:?}").chars().take(60).collect::<String>()));
+                if let Some(df) = map_diff(&snapshot, &map) {
+                    ctx.violation(&sig(&format!("asan:bookkeeping-changed-on-error:{name}"), sc, "group"), case_json(sc, json!({"case": cj, "diff": df})), Some(&bad));
+                }
+            }
+            Ok(_) if fault.is_none() && name.ends_with("max-length-smaller") && (new_max as usize) < plain_len => {
+                ctx.violation(&sig(&format!("asan:accepted:{name}"), sc, "group"), case_json(sc, cj.clone()), Some(&bad));
+            }
+            Ok(_) => {}
+        }
+        if fault.is_none() && name.ends_with("max-length-larger") {
+            let same = match (&pristine, &r) {
+                (Ok(a), Ok(b)) => a == b,
+                (Err(_), Err(_)) => true,
+                _ => false,
+            };
+            ctx.count("asan_larger_max_length_compared", 1);
+            if !same {
+                ctx.violation(&sig(&format!("asan:result-changed-by:{name}"), sc, "group"), case_json(sc, cj), Some(&bad));
+            }
+        }
+    }
+}
+
+/// One mutation of a (stream, max_uncompressed_length, flags) triple; None if not applicable.
+fn mutate_stream(rng: &mut Rng, kind: u64, stream: &mut Vec<u8>, max: &mut u32, plain_len: usize, all: &[StreamRef], flags: Option<&mut u8>) -> Option<String> {
+    Some(match kind {
+        0..=3 => format!("stream-{}", corrupt_stream(rng, stream)),
+        4 => {
+            if plain_len == 0 {
+                return None;
+            }
+            let r = rng.usize(plain_len);
+            *max = *rng.pick(&[0usize, plain_len - 1, plain_len / 2, r]) as u32;
+            "max-length-smaller".into()
+        }
+        5 => {
+            *max = asan_big_max(rng, (*max as usize).max(plain_len));
+            "max-length-larger".into()
+        }
+        6 => {
+            // a valid stream of another patch / table (other content, maybe other dictionary)
+            let o = rng.pick(all);
+            if o.stream == *stream {
+                return None;
+            }
+            *stream = o.stream.clone();
+            "stream-of-another-entry".into()
+        }
+        7 => match flags {
+            // replace <-> diff: the decoder gets / loses the shared dictionary
+            Some(f) => {
+                *f ^= 1;
+                "dictionary-toggled".into()
+            }
+            None => {
+                stream.clear();
+                "stream-empty".into()
+            }
+        },
+        _ => {
+            // both at once: corrupt stream and a large output buffer
+            let k = corrupt_stream(rng, stream);
+            *max = asan_big_max(rng, plain_len);
+            format!("stream-{k}+max-length-large")
+        }
+    })
+}
+
+/// Harness sanity: the C encoder wrapper and the decoder agree on a few vectors.
+fn asan_encoder_selfcheck(ctx: &mut Ctx) -> bool {
+    use shared_brotli_patch_decoder::{BuiltInBrotliDecoder, SharedBrotliDecoder};
+    let mut rng = Rng::derive(1, "c18-asan-selfcheck", 0);
+    let base = enc::structured_bytes(&mut rng, 5000, None);
+    let mut ok = true;
+    for (len, with_dict, q, w) in [(0usize, false, 5u32, 16u32), (1, false, 0, 10), (300, true, 11, 22), (70_000, true, 1, 10), (200_000, false, 9, 24), (3000, true, 2, 11)] {
+        let plain = enc::structured_bytes(&mut rng, len, with_dict.then_some(&base[..]));
+        let dict = with_dict.then_some(&base[..]);
+        let Some(st) = enc::brotli_compress(&plain, dict, q, w) else {
+            ctx.inconclusive(format!("harness: C brotli encoder refused len={len} q={q} lgwin={w}"));
+            ok = false;
+            continue;
+        };
+        match vf_core::guard(|| BuiltInBrotliDecoder.decode(&st, dict, len)) {
+            Ok(Ok(v)) if v == plain => ctx.count("asan_encoder_selfcheck_ok", 1),
+            other => {
+                ctx.inconclusive(format!("harness: encoder self-check failed len={len} q={q} lgwin={w}: {:?}", other.map(|r| r.map(|v| v.len())).map_err(|p| p.msg)));
+                ok = false;
+            }
+        }
+    }
+    ok
+}
+
+fn asan_slice(ctx: &mut Ctx, _args: &Args) {
+    enc::set_compress_mode(true);
+    ctx.rule = "asan slice: non-trivial = an application through the real C brotli decoder that changed >= 1 glyph / table (digest of font+patches+round), \
+                a decoder fault injected at a call the fault-free run really made, a corrupted / re-sized compressed stream that reached the C decoder \
+                through the group API (digest + variant), or a compressed stream decoded directly to exactly its plain text for every adequate buffer size"
+        .into();
+    ctx.assumptions = vec![
+        "asan slice: the binary, the IFT client and the C brotli library (brotlic-sys, CC=clang -fsanitize=address) are ASan-instrumented; a report ends the process (exit 77) and is turned into a violation by the driver".into(),
+        "streams are produced by the C brotli ENCODER of the same library (qualities 0-11, windows 2^10-2^24, raw shared dictionary = the base table for table-keyed diff entries), 1 in 8 as stored meta-blocks, plus the repo's shared-dictionary test vector".into(),
+        "max_uncompressed_length is capped at 16 MiB in generated patches".into(),
+        "glyph data is opaque to the patcher; payloads are compressible synthetic bytes".into(),
+    ];
+    if !asan_encoder_selfcheck(ctx) {
+        return;
+    }
+    let thorough = ctx.tier.is_thorough();
+    let total = ctx.tier.pick(260, 3000);
+    let seed = ctx.seed;
+    for i in 0..total {
+        // (the two 16 MB flavours of the normal profiles are left out: too slow under ASan)
+        if !ctx.mine(i) || i % 397 == 5 {
+            continue;
+        }
+        let sc = gen_scenario(seed, i, thorough);
+        let mut rng = Rng::derive(seed, "c18-asan", i as u64);
+        ctx.label("flavours", &sc.flavour);
+        ctx.label("decoder", "BuiltInBrotliDecoder (C brotli, ASan-instrumented)");
+        ctx.count("asan_scenarios", 1);
+        run_history(ctx, &sc, &mut rng);
+        run_malformed(ctx, &sc, &mut rng);
+        run_stream_fuzz(ctx, &sc, &mut rng);
+        run_decoder_direct(ctx, &sc, &mut rng);
+    }
+    ctx.level = "exploration".into();
+}
+
 // ---------------------------------------------------------------- entry point
 
-pub fn run(ctx: &mut Ctx, _args: &Args) {
+pub fn run(ctx: &mut Ctx, args: &Args) {
+    if args.profile == "asan" {
+        return asan_slice(ctx, args);
+    }
     ctx.rule = "non-trivial = a patch application that changed >= 1 glyph's bytes or >= 1 table (digest of font+patches+round), \
                 a decoder fault injected at a call the fault-free run really made (digest + k + fault kind), \
                 an order/partition set with >= 2 completed sequences that changed glyph data, \
